@@ -22,6 +22,8 @@ pub struct Cfg {
     pub elem_factor: f64,
     pub elementwise: bool,
     pub dense_max: usize,
+    /// lengths in (dense_max, impulse_max] are swept with unit impulses only (O(n) reference), one entry point each
+    pub impulse_max: usize,
     pub struct_max: usize,
     pub struct_count: usize,
     pub basis_max: usize,
@@ -41,6 +43,7 @@ fn cfg_for(args: &Args) -> Cfg {
             elem_factor: 4.0,
             elementwise: false,
             dense_max: if t { 16384 } else { 1536 },
+            impulse_max: if t { 65536 } else { 8192 },
             struct_max: if t { 1 << 20 } else { 1 << 17 },
             struct_count: if t { 600 } else { 120 },
             basis_max: if t { 256 } else { 64 },
@@ -55,6 +58,7 @@ fn cfg_for(args: &Args) -> Cfg {
             elem_factor: 4.0,
             elementwise: true,
             dense_max: if t { 16384 } else { 1536 },
+            impulse_max: if t { 65536 } else { 8192 },
             struct_max: if t { 1 << 20 } else { 1 << 17 },
             struct_count: if t { 600 } else { 120 },
             basis_max: if t { 1024 } else { 128 },
@@ -81,6 +85,12 @@ fn cfg_for(args: &Args) -> Cfg {
     if let Some(v) = args.get_usize("dense-max") {
         c.dense_max = v;
     }
+    if prop == "C13" {
+        c.impulse_max = 0;
+    }
+    if let Some(v) = args.get_usize("impulse-max") {
+        c.impulse_max = v;
+    }
     if let Some(v) = args.get_usize("struct-max") {
         c.struct_max = v;
     }
@@ -97,10 +107,10 @@ fn cfg_for(args: &Args) -> Cfg {
 }
 
 pub fn length_list(cfg: &Cfg, seed: u64) -> Vec<usize> {
-    let mut v: Vec<usize> = (0..=cfg.dense_max).collect();
+    let mut v: Vec<usize> = (0..=cfg.dense_max.max(cfg.impulse_max)).collect();
     let s: Vec<usize> = cases::structured(cfg.struct_max)
         .into_iter()
-        .filter(|n| *n > cfg.dense_max)
+        .filter(|n| *n > cfg.dense_max.max(cfg.impulse_max))
         .collect();
     let mut rng = Rng::new(mix(&[seed, 0x5712]));
     v.extend(cases::subsample(&s, cfg.struct_count, &mut rng));
@@ -119,7 +129,10 @@ fn make_inputs<T: Elem>(cfg: &Cfg, n: usize, rng: &mut Rng) -> Vec<Input<T>> {
     if n == 0 {
         return v;
     }
-    let mut js: Vec<usize> = if n <= cfg.basis_max {
+    let impulse_only = n > cfg.dense_max && n <= cfg.impulse_max;
+    let mut js: Vec<usize> = if impulse_only {
+        vec![0, 1, n / 2, n - 1, rng.range(0, n - 1), rng.range(0, n - 1)]
+    } else if n <= cfg.basis_max {
         (0..n).collect()
     } else {
         let mut js = vec![0, 1, n / 2, n - 1];
@@ -139,7 +152,9 @@ fn make_inputs<T: Elem>(cfg: &Cfg, n: usize, rng: &mut Rng) -> Vec<Input<T>> {
             l1: 1.0,
         });
     }
-    let classes: Vec<InClass> = if n > (1 << 17) {
+    let classes: Vec<InClass> = if impulse_only {
+        vec![]
+    } else if n > (1 << 17) {
         vec![InClass::Uniform]
     } else if n > 8192 {
         vec![InClass::Uniform, InClass::Positive, InClass::WideRange]
@@ -220,7 +235,13 @@ fn check_type<T: Elem>(cfg: &Cfg, st: &mut Stats, n: usize, reff: &RefFft, seed:
                 }
                 continue;
             }
-            for &entry in &cfg.entries {
+            let impulse_only = n > cfg.dense_max && n <= cfg.impulse_max;
+            let rotating = [cfg.entries[(n + pk as usize + di) % cfg.entries.len()]];
+            let entries: &[Entry] = if impulse_only { &rotating } else { &cfg.entries };
+            if impulse_only {
+                st.inc("impulse_only_transforms");
+            }
+            for &entry in entries {
                 for (ii, inp) in inputs.iter().enumerate() {
                     let case = format!("{} entry={} input={}", case_base, entry.name(), inp.label);
                     let mut shape = plain_shape(&*fft, entry, n);
